@@ -707,9 +707,11 @@ theorem nested_sync (F : FloatOps α) (mb : MbLen) (f1 : Nat) (hP : PreSync F mb
         simp only [hk1, if_true]
         split
         · simp [Good]
-        · have := hs f2 .nil (if k = 123 then .array else .cls)
-          revert this
-          cases rdElems F f2 r1 n (zs' ++ more) .nil (if k = 123 then .array else .cls) <;> simp [Good]
+        · split
+          · simp [Good]
+          · have := hs f2 .nil (if k = 123 then .array else .cls)
+            revert this
+            cases rdElems F f2 r1 n (zs' ++ more) .nil (if k = 123 then .array else .cls) <;> simp [Good]
     · have hk91 : k = 91 := by omega
       subst hk91
       simp only [decide_true] at hpre
@@ -1027,19 +1029,22 @@ theorem restoreContainer_total (F : FloatOps α) (mb : MbLen) (k : Byte) (s : Li
       have hpre := preD_pre mb _ _ _ _ _ _ _ _ _ hpreD
       split
       · simp
-      · have hne : rdElems F (s.length + 2) s n zs .nil (if k = 123 then .array else .cls) ≠ .crash := by
-          rcases pre_sync F mb _ _ _ _ _ _ _ _ _ _ hpre with ⟨_, hn⟩ | ⟨_, zsNew, hz, hs⟩
-          · subst hn
-            cases s with
-            | nil => simp [pre] at hpre
-            | cons c r0 => cases r0 <;> simp [rdElems]
-          · simp only [List.nil_append] at hz
-            subst hz
-            have hs := hs []
-            simp only [Sync, Nat.sub_zero, List.append_nil] at hs
-            exact good_ne_crash (hs _ _ _)
-        revert hne
-        cases rdElems F (s.length + 2) s n zs .nil (if k = 123 then .array else .cls) <;> simp
+      · split
+        · simp
+        · skip
+          have hne : rdElems F (s.length + 2) s n zs .nil (if k = 123 then .array else .cls) ≠ .crash := by
+            rcases pre_sync F mb _ _ _ _ _ _ _ _ _ _ hpre with ⟨_, hn⟩ | ⟨_, zsNew, hz, hs⟩
+            · subst hn
+              cases s with
+              | nil => simp [pre] at hpre
+              | cons c r0 => cases r0 <;> simp [rdElems]
+            · simp only [List.nil_append] at hz
+              subst hz
+              have hs := hs []
+              simp only [Sync, Nat.sub_zero, List.append_nil] at hs
+              exact good_ne_crash (hs _ _ _)
+          revert hne
+          cases rdElems F (s.length + 2) s n zs .nil (if k = 123 then .array else .cls) <;> simp
   · -- mappings
     split
     · simp
